@@ -60,6 +60,18 @@ def bootstrap():
     import warnings
 
     warnings.filterwarnings("ignore")
+    if REPO != "/repo":
+        # a scratch copy / snapshot of the repository usually lacks the compiled extension (git-ignored): take the one
+        # built in /repo, otherwise the source directory molli_xt/ would be imported as an empty namespace package
+        import glob
+        import importlib.util
+
+        so = glob.glob(os.path.join(REPO, "molli_xt*.so")) or glob.glob("/repo/molli_xt*.so")
+        if so and "molli_xt" not in sys.modules:
+            spec = importlib.util.spec_from_file_location("molli_xt", so[0])
+            mod = importlib.util.module_from_spec(spec)
+            spec.loader.exec_module(mod)
+            sys.modules["molli_xt"] = mod
     import molli  # noqa: F401
 
     mf = os.path.abspath(molli.__file__)
